@@ -95,7 +95,8 @@ def field_sources(view, operand, proj, at):
                 for n, o in zip(rv["fields"], rv["ops"]):
                     if n == head:
                         if len(p) == 1:
-                            out.append(Source("agg", b, i, o, "%s::%s{%s: %s}" % (rv["adt"].split("::")[-1], rv["variant"], n, op_str(o))))
+                            if not expand_field_variable(o, head, at_):
+                                out.append(Source("agg", b, i, o, "%s::%s{%s: %s}" % (rv["adt"].split("::")[-1], rv["variant"], n, op_str(o))))
                         else:
                             visit_op(o, p[1:], at_)
             else:
@@ -103,6 +104,49 @@ def field_sources(view, operand, proj, at):
                     visit_op(o, p[1:] if (p and (p[0].startswith("[") or p[0].isdigit())) else p, at_)
         else:
             out.append(Source("const", b, i, None, _rv_short(rv)))
+
+    def expand_field_variable(o, field, at_):
+        """`let Config { owner: mut new_owner, .. } = stored; if .. { new_owner = x } ..; Config { owner: new_owner, .. }`:
+        the struct is rebuilt from one local per field. Each re-assignment of such a local is an assignment of the field;
+        its initial value (the same field of the loaded struct) is the unchanged stored value. True if expanded."""
+        if o["k"] not in ("copy", "move") or o["pl"]["p"]:
+            return False
+        l = o["pl"]["l"]
+        ds = view.defs().get(l, [])
+        for _ in range(4):      # the temporary the aggregate reads is a copy of the variable
+            if len(ds) == 1 and ds[0][0] == "s" and not ds[0][3]["lhs"]["p"] and ds[0][3]["rv"]["r"] == "use" \
+                    and ds[0][3]["rv"]["op"]["k"] in ("copy", "move") and not ds[0][3]["rv"]["op"]["pl"]["p"]:
+                at_ = (ds[0][1], ds[0][2])
+                l = ds[0][3]["rv"]["op"]["pl"]["l"]
+                ds = view.defs().get(l, [])
+            else:
+                break
+        if len(ds) < 2 or any(d[0] == "s" and d[3]["lhs"]["p"] for d in ds) or any(d[0] != "s" and d[2]["dest"]["p"] for d in ds):
+            return False
+        identity = []
+        for d in ds:
+            if d[0] != "s":
+                continue
+            os_ = view.origins_of_operand(_rv_operand(d[3]["rv"]), at=(d[1], d[2])) if _rv_operand(d[3]["rv"]) else set()
+            if os_ and all(x.kind in ("load", "param") and x.proj and x.proj[-1] == field for x in os_) and any(x.kind == "load" for x in os_):
+                identity.append(d)
+        if len(identity) != 1:
+            return False
+        for d in ds:
+            if d[0] == "s":
+                db, di = d[1], d[2]
+                if not view.def_reaches_killing(l, db, di, at_, ()):
+                    continue
+                if d in identity:
+                    visit_rv(d[3]["rv"], (), db, di)
+                else:
+                    out.append(Source("assign", db, di, _rv_operand(d[3]["rv"]), "%s = %s" % (pl_str(d[3]["lhs"]), _rv_short(d[3]["rv"]))))
+            else:
+                db, t_ = d[1], d[2]
+                if not view.def_reaches_killing(l, db, len(view.blocks[db]["s"]), at_, ()) or t_.get("target") is None:
+                    continue
+                out.append(Source("assign", t_["target"], 0, {"k": "copy", "pl": {"l": l, "p": []}}, "%s = %s(..)" % (pl_str(t_["dest"]), mname(t_))))
+        return True
 
     def visit_op(o, p, at_):
         if o["k"] in ("copy", "move"):
